@@ -7,9 +7,9 @@ CONSTANTS
   AI = {"XI"}
   AR = {"XR"}
   AdvIds = {"M", "U", "X", "L", "K"}
-  VerCfgs = {1, 3}
-  Ops = {"id", "hdrflip", "hdr", "after_s", "flip_p", "flip_s", "idx", "sub_e", "splice_e"}
-  PKinds = {"full", "empty", "junk", "nocert", "noidx", "zeroidx"}
+  VerCfgs = {1, 4}
+  Ops = {"id", "hdrflip", "hdr", "after_s", "flip_p", "flip_s", "idx", "sub_e", "splice_e", "splice_p", "cert_keep", "cert_swap", "cert_strip"}
+  PKinds = {"full", "empty", "junk", "nocert", "noidx", "zeroidx", "keep", "swap"}
   SKinds = {"own"}
   Misuse = FALSE
   Scns = {"advinit", "advresp", "pair"}
